@@ -279,6 +279,12 @@ func (s *Store) FlushRevert() error {
 			cold.closeCollection()
 		}
 	}
+	// Find the end of the most recent root record first: after a failed Flush
+	// s.size lies beyond it, and stepping back from there would not revert anything.
+	if err := s.readRootsScan(true); err != nil {
+		return err
+	}
+	s.setColl(&coll) // Only the position was wanted; forget what that scan loaded.
 	if atomic.LoadInt64(&s.size) > rootsLen {
 		atomic.AddInt64(&s.size, -1)
 	}
